@@ -65,6 +65,11 @@ pub struct PeerScript {
     /// the runtime has reported that remote gone (it never attaches if that does not happen).
     #[serde(default, skip_serializing_if = "Option::is_none")]
     pub reattach_of: Option<u32>,
+    /// With `reattach_of`: do not wait for the earlier remote to be gone - attach under its id while it is still
+    /// attached (a client that reconnects before the server has noticed that the old connection is dead). The runtime
+    /// replaces the old registration; the new one must start from nothing.
+    #[serde(default, skip_serializing_if = "std::ops::Not::not")]
+    pub reattach_immediately: bool,
     /// The peer attaches only after this much simulated time has passed (0: at once).
     #[serde(default, skip_serializing_if = "is_zero")]
     pub attach_after_ms: u64,
@@ -117,6 +122,10 @@ pub struct Knobs {
     /// The agent's `on_stop` sends an ad hoc command (a notification at shutdown).
     #[serde(default)]
     pub send_on_stop: bool,
+    /// The first channel opened for each command target is closed by the target after it has read this many commands
+    /// (0: never) - a target agent that stops; the next channel for the target stays open.
+    #[serde(default)]
+    pub target_close_after: u32,
     /// Start value of std's hash keys on the run's thread (iteration order of the product's HashMaps).
     #[serde(default)]
     pub hash_seed: u64,
@@ -320,6 +329,7 @@ pub fn generate(seed: u64, focus: &str, _tier: Tier) -> AgentScenario {
         initial_contents: matches!(focus, "C05" | "C02" | "C03" | "MIX") && root.sub("initial-contents").chance(1, 5),
         connector: focus == "DYN",
         send_on_stop: matches!(focus, "C14" | "MIX") && root.sub("send-on-stop").chance(1, 4),
+        target_close_after: if matches!(focus, "C14" | "MIX") && root.sub("target-close").chance(1, 4) { root.sub("target-close-n").range(1, 3) as u32 } else { 0 },
         fail_on_multiple_of: if focus == "C01" && root.sub("handler-fail").chance(1, 3) { 7 } else { 0 },
         persistent: focus != "C04F" && (focus == "C05" || focus == "C05F" || g.rng.chance(1, 3)),
         target_cap: *g.rng.pick(&[8u32, 16, 32, 64, 4096]),
@@ -409,6 +419,7 @@ pub fn generate(seed: u64, focus: &str, _tier: Tier) -> AgentScenario {
             ops,
             reattach_of: None,
             attach_after_ms: 0,
+            reattach_immediately: false,
         });
     }
     // Remotes that come and go in simulated time (C04 focus): one attaches and never links (the runtime prunes it after
@@ -433,6 +444,7 @@ pub fn generate(seed: u64, focus: &str, _tier: Tier) -> AgentScenario {
                 ops: vec![],
                 reattach_of: None,
                 attach_after_ms: 0,
+                reattach_immediately: false,
             });
             let mut ops = vec![Op::Sleep { ms: p / 5 }, Op::Link { lane: "val".into() }];
             for _ in 0..ir.range(2, 5) {
@@ -451,6 +463,7 @@ pub fn generate(seed: u64, focus: &str, _tier: Tier) -> AgentScenario {
                 ops,
                 reattach_of: None,
                 attach_after_ms: p * 9 / 10,
+                reattach_immediately: false,
             });
         }
     }
@@ -520,6 +533,7 @@ pub fn generate(seed: u64, focus: &str, _tier: Tier) -> AgentScenario {
                     ops,
                     reattach_of: Some(peers[q].id),
                     attach_after_ms: 0,
+                    reattach_immediately: rr.chance(1, 3),
                 });
             }
         }
@@ -1031,6 +1045,7 @@ fn generate_dyn(root: Rng, mut g: Gen, mut knobs: Knobs) -> AgentScenario {
         ops,
         reattach_of: None,
             attach_after_ms: 0,
+            reattach_immediately: false,
     });
     for id in 1..=r.range(0, 2) as u32 {
         let mut ops = vec![Op::Pause { polls: *r.pick(&[0u32, 10, 40, 120]) }];
@@ -1054,6 +1069,7 @@ fn generate_dyn(root: Rng, mut g: Gen, mut knobs: Knobs) -> AgentScenario {
             ops,
             reattach_of: None,
             attach_after_ms: 0,
+            reattach_immediately: false,
         });
     }
     AgentScenario {
